@@ -97,6 +97,13 @@ impl Track {
 	}
 
 	pub fn should_be_removed(&self) -> bool {
+		// read the flag first: everything the handle sent before it was
+		// dropped is then certain to be visible in the queues checked below
+		// (checking the queues first would let an `add_sub_track` / `play`
+		// followed by the drop slip in between the two reads)
+		if !self.shared().is_marked_for_removal() {
+			return false;
+		}
 		// a sub-track that was added but not picked up yet is part of this
 		// track, and its handle may well be alive
 		if self.sub_tracks.has_pending() {
@@ -111,11 +118,9 @@ impl Track {
 		}
 		if self.persist_until_sounds_finish {
 			// sounds that were played but not picked up yet have not finished
-			self.shared().is_marked_for_removal()
-				&& self.sounds.is_empty()
-				&& !self.sounds.has_pending()
+			self.sounds.is_empty() && !self.sounds.has_pending()
 		} else {
-			self.shared().is_marked_for_removal()
+			true
 		}
 	}
 
